@@ -59,4 +59,428 @@ theorem loudness_read (l : Loudness) :
       = some (.loud l) := by
   rw [(loudness_roundtrip _ l).1]; simp [loudness_ofObj]
 
+/-! ### audioProgrammeReferenceScreen (by direct computation: the two hand-written handlers share `screen_type`) -/
+
+theorem centre_tag (c : CentrePosition) : (centrePositionToXml c).tag = outName "screenCentrePosition" := by
+  cases c <;> rfl
+theorem width_tag (b : Bool) (w : Int) : (screenWidthToXml b w).tag = outName "screenWidth" := rfl
+
+theorem lookup_centre : lookupElem screenPs (outName "screenCentrePosition") = some centreImpl.handle := by
+  simp [lookupElem, screenPs, Property.elemHandler?, matchesName, outName, namespaces, defaultNs]
+theorem lookup_width : lookupElem screenPs (outName "screenWidth") = some widthImpl.handle := by
+  simp [lookupElem, screenPs, Property.elemHandler?, matchesName, outName, namespaces, defaultNs]
+theorem lookup_aspect : lookupAttr screenPs "aspectRatio" =
+    some (fun kw v => ((liftCodec floatCodec).loads v).map fun x => kw.set "aspectRatio" (.one x)) := by
+  simp [lookupAttr, screenPs, Property.attrHandler?]
+
+/-- the screen value seen through the keyword arguments of `make_screen` -/
+def Screen.kw (s : Screen) : Kw XV :=
+  ((((Kw.empty.set "aspectRatio" (.one (.leaf (.num s.aspectRatio)))).set "centrePosition"
+    (.one (.cpos s.centrePosition))).set "screen_type" (.one (.leaf (.str s.centrePosition.kind)))).set "width"
+    (.one (.leaf (.num s.width)))).set "screen_type" (.one (.leaf (.str s.centrePosition.kind)))
+
+theorem screen_kw (name : String) (s : Screen) (h : s.centrePosition.inRange) :
+    parseKw screenPs (toXml screenPs name s.toObj) = some s.kw := by
+  obtain ⟨ar, c, w⟩ := s
+  have hc := centrePosition_roundtrip c h none (Or.inl rfl)
+  have hw := screenWidth_roundtrip (c.kind == "cartesian") w (some c.kind) (Or.inr (by cases c <;> rfl))
+  have hkind : widthKind (c.kind == "cartesian") = c.kind := by cases c <;> rfl
+  simp only [hkind] at hw
+  have hattrs : (toXml screenPs name (Screen.toObj ⟨ar, c, w⟩)).attrs = [("aspectRatio", dumpsNum ar)] := by
+    simp [toXml, Xml.attrs, screenPs, Property.attrsOut, Screen.toObj, centreImpl, widthImpl, liftCodec, floatCodec]
+  have hkids : (toXml screenPs name (Screen.toObj ⟨ar, c, w⟩)).children =
+      [centrePositionToXml c, screenWidthToXml (c.kind == "cartesian") w] := by
+    simp [toXml, Xml.children, screenPs, Property.childrenOut, Screen.toObj, centreImpl, widthImpl]
+  have hreq : screenPs.filterMap (·.requiredArg?) = ["aspectRatio", "centrePosition", "width"] := by
+    simp [screenPs, Property.requiredArg?]
+  have hgen : screenPs.filterMap (·.generic?) = [] := by simp [screenPs, Property.generic?]
+  have htext : screenPs.findSome? (·.textHandler?) = none := by simp [screenPs, Property.textHandler?]
+  simp only [parseKw, parseStages, hattrs, hkids, parseAttrs, lookup_aspect, parseChildren, centre_tag, width_tag,
+    lookup_centre, lookup_width, parseText, htext, hgen, parseGenerics, hreq, Option.bind_eq_bind]
+  simp [liftCodec, floatCodec, loadsNum_dumpsNum, centreImpl, widthImpl, curType, Kw.empty, Kw.set, setOne, hc, hw,
+    Screen.kw]
+
+theorem screen_obj (s : Screen) : (fun a => (s.kw a).getD (noneDefaults a)) = s.toObj := by
+  funext a
+  simp only [Screen.kw, Kw.set, Kw.empty, Screen.toObj, noneDefaults]
+  by_cases h1 : a = "screen_type" <;> by_cases h2 : a = "width" <;> by_cases h3 : a = "centrePosition" <;>
+    by_cases h4 : a = "aspectRatio" <;> simp_all
+
+/-- **audioProgrammeReferenceScreen, class level**: a polar screen whose centre position is in the ranges
+`PolarPosition` accepts, or any Cartesian screen, comes back from what `to_xml` writes. -/
+theorem screen_roundtrip (name : String) (s : Screen) (h : s.centrePosition.inRange) :
+    parse screenPs noneDefaults (toXml screenPs name s.toObj) = some s.toObj ∧
+    (parse screenPs noneDefaults (toXml screenPs name s.toObj)).map (toXml screenPs name)
+      = some (toXml screenPs name s.toObj) := by
+  have : parse screenPs noneDefaults (toXml screenPs name s.toObj) = some s.toObj := by
+    unfold parse; rw [screen_kw name s h]; simp only [Option.map_some]; rw [screen_obj]
+  exact ⟨this, by rw [this]; rfl⟩
+
+theorem screen_ofObj (s : Screen) : Screen.ofObj s.toObj = some s := by
+  simp [Screen.ofObj, Screen.toObj, getNum, getStr]
+
+theorem screen_read (s : Screen) (h : s.centrePosition.inRange) :
+    ((parse screenPs noneDefaults (toXml screenPs "audioProgrammeReferenceScreen" s.toObj)).bind Screen.ofObj).map
+      XV.screen = some (.screen s) := by
+  rw [(screen_roundtrip _ s h).1]; simp [screen_ofObj]
+
+/-- non-vacuity: the default screen and a Cartesian one -/
+example : defaultScreen.centrePosition.inRange ∧ (Screen.mk 178000 (.cartesian 0 100000 0) 50000).centrePosition.inRange :=
+  ⟨by simp [defaultScreen, CentrePosition.inRange], trivial⟩
+
+/-! ### audioObjectInteraction -/
+
+theorem gainRangeToXml_tag (r : Option GainRange) : ∀ x ∈ gainRangeToXml r, x.tag = outName "gainInteractionRange" := by
+  intro x hx
+  cases r with
+  | none => cases hx
+  | some r =>
+    simp only [gainRangeToXml, List.mem_append] at hx
+    rcases hx with hx | hx <;> (split at hx <;> simp at hx; subst hx; rfl)
+
+theorem dumpIRange_tag (c : String) (r : IRange) : ∀ x ∈ dumpIRange c r, x.tag = outName "positionInteractionRange" := by
+  intro x hx
+  simp only [dumpIRange, List.mem_append] at hx
+  rcases hx with hx | hx <;> (split at hx <;> simp at hx; subst hx; rfl)
+
+theorem posRangeToXml_tag (r : Option PosRange) : ∀ x ∈ posRangeToXml r, x.tag = outName "positionInteractionRange" := by
+  intro x hx
+  cases r with
+  | none => cases hx
+  | some r =>
+    cases r <;> simp only [posRangeToXml, List.mem_append] at hx <;>
+      (rcases hx with (hx | hx) | hx <;> exact dumpIRange_tag _ _ x hx)
+
+/-- the values of an `AudioObjectInteraction` inside the stated domain -/
+structure InteractionValid (i : Interaction) : Prop where
+  /-- gains on the grid (not read from dB), at least one bound (an empty range is the excluded point) -/
+  gain : ∀ r, i.gainInteractionRange = some r → ∃ mn mx, r = linRange mn mx ∧ (mn.isSome ∨ mx.isSome)
+  pos : ∀ r, i.positionInteractionRange = some r → r.nonempty
+
+theorem interaction_keys (v2 : Bool) : KeysOK (interactionPs v2) := by
+  refine ⟨?_, ?_, ?_, ?_⟩ <;>
+    simp [interactionPs, Property.attrKeys, Property.elemNames, allArgs, Property.ownArgs, Property.textHandler?,
+      gainRangeImpl, posRangeImpl, xpathImpl]
+
+theorem interaction_tags (v2 : Bool) : ∀ q ∈ interactionPs v2, TagsOK q := by
+  intro q hq
+  simp only [interactionPs, List.mem_cons, List.not_mem_nil, or_false] at hq
+  rcases hq with rfl | rfl | rfl | rfl | rfl
+  · exact tagsOK_attr _ _ _ _ _
+  · exact tagsOK_attr _ _ _ _ _
+  · exact tagsOK_attr _ _ _ _ _
+  · exact tagsOK_generic _ _ _ (tags_xpath _ _ _ _ (fun v x hx => by
+      split at hx
+      · exact gainRangeToXml_tag _ x hx
+      · cases hx))
+  · exact tagsOK_generic _ _ _ (tags_xpath _ _ _ _ (fun v x hx => by
+      split at hx
+      · exact posRangeToXml_tag _ x hx
+      · cases hx))
+
+theorem interaction_lookup (v2 : Bool) (k : QName) : lookupElem (interactionPs v2) k = none := by
+  simp [lookupElem, interactionPs, Property.elemHandler?]
+
+def optGRange : Option GainRange → XV
+  | some r => .grange r
+  | none => noneLeaf
+def optPRange : Option PosRange → XV
+  | some r => .prange r
+  | none => noneLeaf
+
+theorem gainRangeToXml_ne (mn mx : Option Int) (h : mn.isSome ∨ mx.isSome) :
+    gainRangeToXml (some (linRange mn mx)) ≠ [] := by
+  cases mn <;> cases mx <;> simp [gainRangeToXml, linRange, linear?] at h ⊢
+
+theorem dumpIRange_ne (c : String) (r : IRange) (h : r.isEmpty = false) : dumpIRange c r ≠ [] := by
+  obtain ⟨mn, mx⟩ := r
+  cases mn <;> cases mx <;> simp [dumpIRange, IRange.isEmpty] at h ⊢
+
+theorem posRangeToXml_ne (p : PosRange) (h : p.nonempty) : posRangeToXml (some p) ≠ [] := by
+  cases p with
+  | polar a e d =>
+    simp only [PosRange.nonempty] at h
+    simp only [posRangeToXml, ne_eq, List.append_eq_nil_iff, not_and]
+    rcases h with h | h | h
+    · intro h1; exact absurd h1.1 (dumpIRange_ne _ _ h)
+    · intro h1; exact absurd h1.2 (dumpIRange_ne _ _ h)
+    · intro _; exact dumpIRange_ne _ _ h
+  | cartesian a e d =>
+    simp only [PosRange.nonempty] at h
+    simp only [posRangeToXml, ne_eq, List.append_eq_nil_iff, not_and]
+    rcases h with h | h | h
+    · intro h1; exact absurd h1.1 (dumpIRange_ne _ _ h)
+    · intro h1; exact absurd h1.2 (dumpIRange_ne _ _ h)
+    · intro _; exact dumpIRange_ne _ _ h
+
+theorem interaction_fields (v2 : Bool) (name : String) (i : Interaction) (hv : InteractionValid i) :
+    ∀ p ∈ interactionPs v2,
+      FieldOK (interactionPs v2) (toXml (interactionPs v2) name i.toObj) i.toObj noneDefaults p := by
+  intro p hp
+  simp only [interactionPs, List.mem_cons, List.not_mem_nil, or_false] at hp
+  rcases hp with rfl | rfl | rfl | rfl | rfl
+  · exact scalar_leaf _ _ _ boolCodec true .none (.bool i.onOffInteract) (by simp [Interaction.toObj])
+      (fun _ => boolCodec_roundtrip _) (by simp)
+  · exact scalar_optBool _ _ _ i.gainInteract (by simp [Interaction.toObj]) rfl
+  · exact scalar_optBool _ _ _ i.positionInteract (by simp [Interaction.toObj]) rfl
+  · have hv0 : i.toObj "gainInteractionRange" = .one (optGRange i.gainInteractionRange) := by
+      cases h : i.gainInteractionRange <;> simp [Interaction.toObj, optGRange, h]
+    have hx := xpath_own (interactionPs v2) name i.toObj
+      [boolAttr "onOffInteract" true, boolAttr "gainInteract" false, boolAttr "positionInteract" false]
+      [.genericElement none false posRangeImpl] (.genericElement none false (gainRangeImpl v2))
+      "gainInteractionRange" rfl (interaction_tags v2)
+      (fun x hx => by
+        simp only [Property.childrenOut, gainRangeImpl, xpathImpl] at hx
+        split at hx
+        · split at hx
+          · exact gainRangeToXml_tag _ x hx
+          · cases hx
+        · cases hx)
+      (by simp [outNames, posRangeImpl, xpathImpl])
+    simp only [Property.childrenOut, gainRangeImpl, xpathImpl, hv0] at hx
+    refine fieldOK_xpath _ _ _ _ _ _ _ _ _ hv0 ?_ (interaction_lookup v2 _) hx ?_
+    · intro x hx
+      split at hx
+      · exact gainRangeToXml_tag _ x hx
+      · cases hx
+    · cases h : i.gainInteractionRange with
+      | none => simp [optGRange, parseGainRange]
+      | some r =>
+        obtain ⟨mn, mx, rfl, hne⟩ := hv.gain r h
+        have := gainRangeToXml_ne mn mx hne
+        simp [optGRange, gainRange_roundtrip v2 mn mx hne, this]
+  · have hv0 : i.toObj "positionInteractionRange" = .one (optPRange i.positionInteractionRange) := by
+      cases h : i.positionInteractionRange <;> simp [Interaction.toObj, optPRange, h]
+    have hx := xpath_own (interactionPs v2) name i.toObj
+      [boolAttr "onOffInteract" true, boolAttr "gainInteract" false, boolAttr "positionInteract" false,
+        .genericElement none false (gainRangeImpl v2)]
+      [] (.genericElement none false posRangeImpl)
+      "positionInteractionRange" rfl (interaction_tags v2)
+      (fun x hx => by
+        simp only [Property.childrenOut, posRangeImpl, xpathImpl] at hx
+        split at hx
+        · split at hx
+          · exact posRangeToXml_tag _ x hx
+          · cases hx
+        · cases hx)
+      (by simp [outNames, gainRangeImpl, xpathImpl])
+    simp only [Property.childrenOut, posRangeImpl, xpathImpl, hv0] at hx
+    refine fieldOK_xpath _ _ _ _ _ _ _ _ _ hv0 ?_ (interaction_lookup v2 _) hx ?_
+    · intro x hx
+      split at hx
+      · exact posRangeToXml_tag _ x hx
+      · cases hx
+    · cases h : i.positionInteractionRange with
+      | none => simpa [optPRange, posRangeToXml] using posRange_none
+      | some r =>
+        have := posRangeToXml_ne r (hv.pos r h)
+        simp [optPRange, posRange_roundtrip r (hv.pos r h), this]
+
+
+/-- **audioObjectInteraction, class level** (either version) -/
+theorem interaction_roundtrip (v2 : Bool) (name : String) (i : Interaction) (hv : InteractionValid i) :
+    parse (interactionPs v2) noneDefaults (toXml (interactionPs v2) name i.toObj) = some i.toObj ∧
+    (parse (interactionPs v2) noneDefaults (toXml (interactionPs v2) name i.toObj)).map (toXml (interactionPs v2) name)
+      = some (toXml (interactionPs v2) name i.toObj) := by
+  refine codec_roundtrip_full (interactionPs v2) name i.toObj noneDefaults
+    ⟨interaction_keys v2, interaction_fields v2 name i hv⟩ ?_ ?_
+  · intro p hp hc
+    simp only [interactionPs, List.mem_cons, List.not_mem_nil, or_false] at hp
+    rcases hp with rfl | rfl | rfl | rfl | rfl <;> simp [Property.isCustom] at hc
+    · exact customEff_xpath _ _ _ _ _ _ _ _ (optGRange i.gainInteractionRange)
+        (by cases h : i.gainInteractionRange <;> simp [Interaction.toObj, optGRange, h])
+        (fun hw => by
+          cases h : i.gainInteractionRange with
+          | none => simp [optGRange, noneDefaults]
+          | some r =>
+            obtain ⟨mn, mx, rfl, hne⟩ := hv.gain r h
+            simp only [h, optGRange] at hw
+            exact absurd hw (gainRangeToXml_ne mn mx hne))
+    · exact customEff_xpath _ _ _ _ _ _ _ _ (optPRange i.positionInteractionRange)
+        (by cases h : i.positionInteractionRange <;> simp [Interaction.toObj, optPRange, h])
+        (fun hw => by
+          cases h : i.positionInteractionRange with
+          | none => simp [optPRange, noneDefaults]
+          | some r =>
+            simp only [h, optPRange] at hw
+            exact absurd hw (posRangeToXml_ne r (hv.pos r h)))
+  · intro a ha
+    simp only [allArgs, interactionPs, Property.ownArgs, gainRangeImpl, posRangeImpl, xpathImpl, List.flatMap_cons,
+      List.flatMap_nil, List.cons_append, List.nil_append, List.mem_cons, List.not_mem_nil, or_false, not_or] at ha
+    simp [Interaction.toObj, noneDefaults, ha]
+
+theorem interaction_ofObj (i : Interaction) : Interaction.ofObj i.toObj = some i := by
+  obtain ⟨a, b, c, d, e⟩ := i
+  cases d <;> cases e <;> simp [Interaction.ofObj, Interaction.toObj, getBool, get_optBoolV]
+
+theorem interaction_read (v2 : Bool) (i : Interaction) (hv : InteractionValid i) :
+    ((parse (interactionPs v2) noneDefaults (toXml (interactionPs v2) "audioObjectInteraction" i.toObj)).bind
+      Interaction.ofObj).map XV.interaction = some (.interaction i) := by
+  rw [(interaction_roundtrip v2 _ i hv).1]; simp [interaction_ofObj]
+
+/-- non-vacuity: on/off interaction with a gain range (max only) and a Cartesian position range -/
+example : InteractionValid ⟨true, some true, none, some (linRange none (some 200000)),
+    some (.cartesian ⟨some (-50000), some 50000⟩ ⟨none, none⟩ ⟨none, some 100000⟩)⟩ :=
+  { gain := fun r h => ⟨none, some 200000, by simpa using h.symm, by simp⟩,
+    pos := fun r h => by
+      simp only [Option.some.injEq] at h; subst h
+      exact Or.inl (by simp [IRange.isEmpty]) }
+
+/-! ### alternativeValueSet -/
+
+theorem positionOffsetToXml_tag (p : Option PositionOffset) :
+    ∀ x ∈ positionOffsetToXml p, x.tag = outName "positionOffset" := by
+  intro x hx
+  have hd : ∀ c v, ∀ y ∈ dumpOffset c v, y.tag = outName "positionOffset" := by
+    intro c v y hy
+    unfold dumpOffset at hy
+    split at hy
+    · simp at hy; subst hy; rfl
+    · cases hy
+  cases p with
+  | none => cases hx
+  | some q =>
+    cases q <;> simp only [positionOffsetToXml, List.mem_append] at hx <;>
+      (rcases hx with (hx | hx) | hx <;> exact hd _ _ x hx)
+
+theorem positionOffsetToXml_ne (q : PositionOffset) (h : q.nonzero) : positionOffsetToXml (some q) ≠ [] := by
+  cases q <;> simp only [PositionOffset.nonzero] at h <;>
+    simp only [positionOffsetToXml, dumpOffset, ne_eq, List.append_eq_nil_iff, not_and] <;>
+    (rcases h with h | h | h <;> simp [h])
+
+theorem optionalGainToXml_tag (g : Option Int) : ∀ x ∈ optionalGainToXml g, x.tag = outName "gain" := by
+  intro x hx; cases g <;> simp [optionalGainToXml] at hx; subst hx; rfl
+
+structure AVSValid (a : AVS) : Prop where
+  /-- an all-zero offset is the excluded point -/
+  offset : ∀ q, a.positionOffset = some q → q.nonzero
+  interaction : ∀ i, a.audioObjectInteraction = some i → InteractionValid i
+
+theorem avs_keys (v2 : Bool) : KeysOK (avsPs v2) := by
+  refine ⟨?_, ?_, ?_, ?_⟩ <;>
+    simp [avsPs, Property.attrKeys, Property.elemNames, allArgs, Property.ownArgs, Property.textHandler?,
+      optGainImpl, offsetImpl, interactionImpl, singleImpl, xpathImpl]
+
+theorem avs_tags (v2 : Bool) : ∀ q ∈ avsPs v2, TagsOK q := by
+  intro q hq
+  simp only [avsPs, List.mem_cons, List.not_mem_nil, or_false] at hq
+  rcases hq with rfl | rfl | rfl | rfl | rfl
+  · exact tagsOK_attr _ _ _ _ _
+  · exact tagsOK_custom _ _ _ _ (tags_single _ _ _ _ (fun v x hx => by
+      split at hx
+      · exact optionalGainToXml_tag _ x hx
+      · cases hx))
+  · exact tagsOK_attrElement _ _ _ _ _ _
+  · exact tagsOK_generic _ _ _ (tags_xpath _ _ _ _ (fun v x hx => by
+      split at hx
+      · exact positionOffsetToXml_tag _ x hx
+      · cases hx))
+  · exact tagsOK_custom _ _ _ _ (tags_single _ _ _ _ (fun v x hx => by
+      split at hx
+      · simp at hx; subst hx; rfl
+      · cases hx))
+
+theorem avs_fields (v2 : Bool) (name : String) (a : AVS) (hv : AVSValid a) :
+    ∀ p ∈ avsPs v2, FieldOK (avsPs v2) (toXml (avsPs v2) name a.toObj) a.toObj noneDefaults p := by
+  intro p hp
+  simp only [avsPs, List.mem_cons, List.not_mem_nil, or_false] at hp
+  rcases hp with rfl | rfl | rfl | rfl | rfl
+  · exact scalar_reqStr _ _ _ a.id (by simp [AVS.toObj])
+  · refine fieldOK_single _ _ _ _ _ _ _ _ _ (optNumV a.gain) (by simp [AVS.toObj]) ?_ ?_
+    · intro x hx
+      split at hx
+      · exact optionalGainToXml_tag _ x hx
+      · cases hx
+    · cases h : a.gain with
+      | none => left; simp [optNumV]
+      | some k =>
+        right
+        refine ⟨elem "gain" [] (dumpsNum k), by simp [optNumV, optionalGainToXml], ?_⟩
+        simp [optNumV, handleGainElement, parseGain, gainValue, attr?, elem, Xml.attrs, Xml.text, loadsNum_dumpsNum]
+  · exact Or.inr ⟨rfl, scalar_optBool _ _ _ a.mute (by simp [AVS.toObj]) rfl⟩
+  · have hv0 : a.toObj "positionOffset" = .one (optOffset a.positionOffset) := by simp [AVS.toObj]
+    have hx := xpath_own (avsPs v2) name a.toObj
+      [strAttr "alternativeValueSetID" "id" true, .customElement "gain" none false optGainImpl,
+        .attrElement "mute" "mute" (liftCodec boolCodec) false noneLeaf false]
+      [.customElement "audioObjectInteraction" (some "audioObjectInteraction") false (interactionImpl v2)]
+      (.genericElement none false offsetImpl) "positionOffset" rfl (avs_tags v2)
+      (fun x hx => by
+        simp only [Property.childrenOut, offsetImpl, xpathImpl] at hx
+        split at hx
+        · split at hx
+          · exact positionOffsetToXml_tag _ x hx
+          · cases hx
+        · cases hx)
+      (by simp [outNames])
+    simp only [Property.childrenOut, offsetImpl, xpathImpl, hv0] at hx
+    refine fieldOK_xpath _ _ _ _ _ _ _ _ _ hv0 ?_ ?_ hx ?_
+    · intro x hx
+      split at hx
+      · exact positionOffsetToXml_tag _ x hx
+      · cases hx
+    · simp [lookupElem, avsPs, Property.elemHandler?, matchesName, outName]
+    · cases h : a.positionOffset with
+      | none => simp [optOffset, parsePositionOffset, offsetFinish]
+      | some q =>
+        have hq := hv.offset q h
+        have := positionOffsetToXml_ne q hq
+        simp [optOffset, positionOffset_roundtrip (some q) (fun _ h => by cases h; exact hq), this]
+  · refine fieldOK_single _ _ _ _ _ _ _ _ _ (optInteraction a.audioObjectInteraction) (by simp [AVS.toObj]) ?_ ?_
+    · intro x hx
+      split at hx
+      · simp at hx; subst hx; rfl
+      · cases hx
+    · cases h : a.audioObjectInteraction with
+      | none => left; simp [optInteraction]
+      | some i =>
+        right
+        exact ⟨_, by simp [optInteraction], interaction_read v2 i (hv.interaction i h)⟩
+
+/-- **alternativeValueSet, class level** -/
+theorem avs_roundtrip (v2 : Bool) (name : String) (a : AVS) (hv : AVSValid a) :
+    parse (avsPs v2) noneDefaults (toXml (avsPs v2) name a.toObj) = some a.toObj ∧
+    (parse (avsPs v2) noneDefaults (toXml (avsPs v2) name a.toObj)).map (toXml (avsPs v2) name)
+      = some (toXml (avsPs v2) name a.toObj) := by
+  refine codec_roundtrip_full (avsPs v2) name a.toObj noneDefaults ⟨avs_keys v2, avs_fields v2 name a hv⟩ ?_ ?_
+  · intro p hp hc
+    simp only [avsPs, List.mem_cons, List.not_mem_nil, or_false] at hp
+    rcases hp with rfl | rfl | rfl | rfl | rfl <;> simp [Property.isCustom] at hc
+    · exact customEff_single _ _ _ _ _ _ _ _ (optNumV a.gain) (by simp [AVS.toObj])
+        (fun hw => by cases h : a.gain <;> simp [h, optNumV, optionalGainToXml, noneDefaults] at hw ⊢)
+    · exact customEff_xpath _ _ _ _ _ _ _ _ (optOffset a.positionOffset) (by simp [AVS.toObj])
+        (fun hw => by
+          cases h : a.positionOffset with
+          | none => simp [optOffset, noneDefaults]
+          | some q =>
+            simp only [h, optOffset] at hw
+            exact absurd hw (positionOffsetToXml_ne q (hv.offset q h)))
+    · exact customEff_single _ _ _ _ _ _ _ _ (optInteraction a.audioObjectInteraction) (by simp [AVS.toObj])
+        (fun hw => by cases h : a.audioObjectInteraction <;> simp [h, optInteraction, noneDefaults] at hw ⊢)
+  · intro k hk
+    simp only [allArgs, avsPs, Property.ownArgs, optGainImpl, offsetImpl, interactionImpl, singleImpl, xpathImpl,
+      List.flatMap_cons, List.flatMap_nil, Bool.false_eq_true, if_false, List.cons_append, List.nil_append,
+      List.mem_cons, List.not_mem_nil, or_false, not_or] at hk
+    simp [AVS.toObj, noneDefaults, hk]
+
+/-- non-vacuity: gain, mute, a Cartesian offset and an interaction with a position range -/
+example : AVSValid ⟨"AVS_1001_0001", some 200000, some true, some (.cartesian 0 50000 0),
+    some ⟨false, none, some true, none, some (.polar ⟨some (-3000000), some 3000000⟩ ⟨none, none⟩ ⟨none, none⟩)⟩⟩ :=
+  { offset := fun q h => by simp at h; subst h; exact Or.inr (Or.inl (by decide)),
+    interaction := fun i h => by
+      simp at h; subst h
+      exact ⟨fun r h => by simp at h, fun r h => by
+        simp only [Option.some.injEq] at h; subst h
+        exact Or.inl (by simp [IRange.isEmpty])⟩ }
+
+theorem avs_ofObj (a : AVS) : AVS.ofObj a.toObj = some a := by
+  obtain ⟨i, g, m, p, x⟩ := a
+  cases p <;> cases x <;>
+    simp [AVS.ofObj, AVS.toObj, getStr, get_optNumV, get_optBoolV, getOptOffset, getOptInteraction, optOffset,
+      optInteraction]
+
+theorem avs_read (v2 : Bool) (a : AVS) (hv : AVSValid a) :
+    ((parse (avsPs v2) noneDefaults (toXml (avsPs v2) "alternativeValueSet" a.toObj)).bind AVS.ofObj).map XV.avs
+      = some (.avs a) := by
+  rw [(avs_roundtrip v2 _ a hv).1]; simp [avs_ofObj]
+
 end Earverif.XmlBlocks
